@@ -1421,6 +1421,15 @@ func (bc *BlockChain) reorg(oldBlock, newBlock *types.Block) error {
 		addedTxs = append(addedTxs, newChain[i].Transactions()...)
 	}
 
+	// The new head may be lower than the old one (a shorter but heavier
+	// branch): drop the number assignments of the old chain above it, so that
+	// no height beyond the head maps to anything.
+	if len(newChain) > 0 {
+		for i := newChain[0].NumberU64() + 1; GetCanonicalHash(bc.db, i) != (common.Hash{}); i++ {
+			DeleteCanonicalHash(bc.db, i)
+		}
+	}
+
 	// regardless of WriteTxLookupEntries error
 	diff := types.TxDifference(deletedTxs, addedTxs)
 
